@@ -290,6 +290,10 @@ func hook(c rescorr.Case, ms *yang.Modules, errs []error, out *rescorr.GoOut) {
 		if len(n.steps) == 0 {
 			continue
 		}
+		if p := n.e.Parent; p != nil && p.Kind == yang.ChoiceEntry && n.e.Kind != yang.CaseEntry {
+			add(fmt.Sprintf("%s is written directly under choice %s but has no implied case: its schema path %s names nothing",
+				n.e.Path(), p.Path(), absPath(w.trees[n.tree].mod.GetPrefix(), n.schema, 0)))
+		}
 		var names []string
 		for x := n.e; x != nil && x.Parent != nil; x = x.Parent {
 			names = append([]string{x.Name}, names...)
@@ -409,6 +413,51 @@ func hook(c rescorr.Case, ms *yang.Modules, errs []error, out *rescorr.GoOut) {
 			qs = append(qs, query{rootIdx, rootCtx, mut(func(p []string) []string {
 				return append(append(append([]string{}, p[:j]...), "."), p[j:]...)
 			}), "t" + strconv.Itoa(bi), "dot"})
+		}
+	}
+	// ---- phase 2b: a step spelled like a deeper descendant (one that is reachable only through
+	// further steps: a choice and its case, a container, an rpc's input) names no child
+	skipDone := map[string]bool{}
+	for _, d := range w.nodes {
+		if len(d.steps) < 2 {
+			continue
+		}
+		nm := d.names[len(d.names)-1]
+		if unspellable(nm) || nm == "input" || nm == "output" {
+			continue
+		}
+		dt := w.trees[d.tree]
+		own := dt.mod.GetPrefix()
+		for up := 2; up <= len(d.steps); up++ {
+			ae := ancestor(d.e, up)
+			ai, ok := w.idx[ae]
+			if !ok {
+				break
+			}
+			a := w.nodes[ai]
+			if _, direct := ae.Dir[nm]; direct || limitOf(a) != "" || a.viaRP {
+				continue
+			}
+			key := strconv.Itoa(ai) + "\x00" + nm
+			if skipDone[key] {
+				continue
+			}
+			skipDone[key] = true
+			actx := ctxOf(a)
+			if actx == nil {
+				continue
+			}
+			// relative, from the node itself
+			qs = append(qs, query{ai, treeRef(actx), nm, "nil", "skip-level-rel"})
+			// relative, from the child of a on the way down: up one, then the name
+			ci := w.idx[ancestor(d.e, up-1)]
+			if cctx := ctxOf(w.nodes[ci]); cctx != nil {
+				qs = append(qs, query{ci, treeRef(cctx), "../" + nm, "nil", "skip-level-rel"})
+			}
+			// absolute, from the root of the tree, every step with the module's own prefix
+			if dt.mod.BelongsTo == nil && own != "" {
+				qs = append(qs, query{w.idx[dt.root], treeRef(dt.mod), absPath(own, append(append([]string{}, a.schema...), nm), 0), "nil", "skip-level"})
+			}
 		}
 	}
 	nReadOnly := len(qs)
